@@ -110,7 +110,7 @@ type c12Round struct {
 
 func c12(ctx *core.Ctx) {
 	quietLogs()
-	ctx.Rule("rounds of W mutator goroutines (each owns one WebService key /k<i>: Add/Remove of a fresh WebService, and one route key /d<i>/r/{id:regex}: Route/RemoveRoute on its own dynamic-routes service (empty whenever the route is withdrawn) and a third key /dyn/s<i>/{id:regex} on the dynamic-routes service all mutators share, each generation with another regular expression; an OPTIONS filter is installed and readers also send OPTIONS; Remove and RemoveRoute are now and then repeated for something no longer registered; handlers return a unique generation) and R reader goroutines probing dynamic and stable URLs; both routers x {ServeHTTP, Dispatch}; yields injected through If-conditions (inside the read-locked selection) and a container filter. Monitors: Go race detector; client-boundary history {op, key, gen, call, return} checked by porcupine per key against a register over {absent, gen}; stable URLs must always get their fixed answer; panics; blocked-goroutine state detector. Non-trivial = a read that overlapped a write of its own key; distinct by (round configuration, key, observed value class).")
+	ctx.Rule("rounds of W mutator goroutines (each owns one WebService key /k<i>: Add/Remove of a fresh WebService, and one route key /d<i>/r/{id:regex}: Route/RemoveRoute on its own dynamic-routes service (empty whenever the route is withdrawn) and a third key /dyn/s<i>/{id:regex} on the dynamic-routes service all mutators share, each generation with another regular expression; an OPTIONS filter and 0-5 further container filters are installed, every service has a filter of its own (each 200 answer must carry exactly its own chain) and readers also send OPTIONS; Remove and RemoveRoute are now and then repeated for something no longer registered; handlers return a unique generation) and R reader goroutines probing dynamic and stable URLs; both routers x {ServeHTTP, Dispatch}; yields injected through If-conditions (inside the read-locked selection) and a container filter. Monitors: Go race detector; client-boundary history {op, key, gen, call, return} checked by porcupine per key against a register over {absent, gen}; stable URLs must always get their fixed answer; panics; blocked-goroutine state detector. Non-trivial = a read that overlapped a write of its own key; distinct by (round configuration, key, observed value class).")
 	ctx.Assume("schedules are not reproducible: evidence reports the overlap actually observed", "a porcupine timeout is inconclusive, never a violation")
 	rounds := ctx.N(64, 6000)
 	var totalOps, totalOverlap, partitions int
@@ -142,7 +142,19 @@ func c12(ctx *core.Ctx) {
 			runtime.Gosched() // between selection and the route function
 			chain.ProcessFilter(req, resp)
 		})
+		// 1-7 container filters in all (with the OPTIONS filter below), and a filter of its own on every service: each
+		// request composes its chain from the three levels while other requests do the same
+		ownerFilter := func(owner string) restful.FilterFunction {
+			return func(req *restful.Request, resp *restful.Response, chain *restful.FilterChain) {
+				resp.AddHeader("X-Filtered-By", owner)
+				chain.ProcessFilter(req, resp)
+			}
+		}
+		for i := 0; i < ri%6; i++ {
+			c.Filter(ownerFilter("container"))
+		}
 		stable := new(restful.WebService).Path("/stable")
+		stable.Filter(ownerFilter("/stable"))
 		for i := 0; i < 3; i++ {
 			body := fmt.Sprintf("stable-%d", i)
 			stable.Route(stable.GET(fmt.Sprintf("/s%d", i)).To(func(req *restful.Request, resp *restful.Response) {
@@ -152,6 +164,7 @@ func c12(ctx *core.Ctx) {
 		}
 		c.Add(stable)
 		dyn := new(restful.WebService).Path("/dyn")
+		dyn.Filter(ownerFilter("/dyn"))
 		dyn.SetDynamicRoutes(true)
 		dyn.Route(dyn.GET("/keep").If(yieldCond).To(func(req *restful.Request, resp *restful.Response) {
 			resp.WriteHeader(200)
@@ -162,6 +175,7 @@ func c12(ctx *core.Ctx) {
 		dyns := make([]*restful.WebService, rd.Mutators)
 		for m := range dyns {
 			dyns[m] = new(restful.WebService).Path(fmt.Sprintf("/d%d", m))
+			dyns[m].Filter(ownerFilter(fmt.Sprintf("/d%d", m)))
 			dyns[m].SetDynamicRoutes(true)
 			c.Add(dyns[m])
 		}
@@ -172,8 +186,8 @@ func c12(ctx *core.Ctx) {
 		now := func() int64 { return int64(time.Since(epoch)) }
 		var gen int64
 		var stop int32
-		var stableBad int32
-		var firstBad atomic.Value
+		var stableBad, filterBad int32
+		var firstBad, firstFilterBad atomic.Value
 		var panics int32
 		var firstPanic atomic.Value
 
@@ -184,6 +198,18 @@ func c12(ctx *core.Ctx) {
 				atomic.AddInt32(&panics, 1)
 				firstPanic.Store("GET " + path + ": " + o.Panic)
 				return 0, "", false
+			}
+			if o.Status == 200 {
+				// the chain of this request: the container's filters, then the filter of the service that owns the URL
+				owner := path
+				if k := strings.Index(path[1:], "/"); k >= 0 {
+					owner = path[:k+1]
+				}
+				got := o.Rec.Hdr()["X-Filtered-By"]
+				if len(got) != ri%6+1 || got[len(got)-1] != owner {
+					atomic.AddInt32(&filterBad, 1)
+					firstFilterBad.Store(fmt.Sprintf("GET %s ran the filters %v, its chain is %d container filter(s) and the filter of %s", path, got, ri%6, owner))
+				}
 			}
 			return o.Status, o.Rec.Body.String(), true
 		}
@@ -212,7 +238,7 @@ func c12(ctx *core.Ctx) {
 					// service key
 					if ws == nil {
 						g := int(atomic.AddInt64(&gen, 1))
-						ws = new(restful.WebService).Path(skey)
+						ws = new(restful.WebService).Path(skey).Filter(ownerFilter(skey))
 						ws.Route(ws.GET("/v").If(yieldCond).To(genHandler(g)))
 						call := now()
 						c.Add(ws)
@@ -363,6 +389,9 @@ func c12(ctx *core.Ctx) {
 		}
 		if n := atomic.LoadInt32(&stableBad); n > 0 {
 			ctx.Violation(ri, "c12:stable-answer:"+rd.Router+":"+rd.Entry, fmt.Sprintf("%d wrong answer(s); first: %v", n, firstBad.Load()), map[string]interface{}{"round": rd})
+		}
+		if n := atomic.LoadInt32(&filterBad); n > 0 {
+			ctx.Violation(ri, "c12:foreign-filter:"+rd.Router+":"+rd.Entry, fmt.Sprintf("%d request(s) ran a filter chain that is not theirs; first: %v", n, firstFilterBad.Load()), map[string]interface{}{"round": rd})
 		}
 		// offline: linearizability per key
 		hist.mu.Lock()
